@@ -76,7 +76,11 @@ def cliOp (args impl : List String) : Option (String × String) := do
         else if n "err" ≠ 1 then "FAIL malformed-input-accepted-without-error"
         else "ok"
       | .ok p =>
-        let stats := triple "stats"; let truth := triple "truth"
+        -- logfmt=json: the command uses f1's own JSON logger, so there is no captured summary; the body's own counters stand in
+        -- for the counts (such cases use users mode: nothing is dropped) and the banner clauses do not apply
+        let jsonLog := (get "logfmt") = some "json"
+        let truth := triple "truth"
+        let stats := if jsonLog then truth ++ [0] else triple "stats"
         let succ := (stats.getD 0 0).toNat; let failed := (stats.getD 1 0).toNat; let dropped := (stats.getD 2 0).toNat
         let setupFailed := (get "setupfail").getD "0" ≠ "0"
         let stageFailed := setupFailed ∨ (get "tdfail").getD "0" ≠ "0"
@@ -84,7 +88,7 @@ def cliOp (args impl : List String) : Option (String × String) := do
         let specErr := decide (Verdict.FailedSpec stageFailed p.opts ⟨succ, failed, dropped⟩)
         if n "setups" = 0 ∧ n "err" = 1 then "FAIL valid-input-refused"
         else if n "setups" ≠ 1 then "FAIL setup-did-not-run-exactly-once"
-        else if out "banner" = "none" then "FAIL no-summary-for-an-accepted-run"
+        else if ¬jsonLog ∧ out "banner" = "none" then "FAIL no-summary-for-an-accepted-run"
         else if ¬setupFailed ∧ stats.take 2 ≠ truth then "FAIL summary-counts-differ-from-executed-iterations"
         else if setupFailed ∧ n "started" ≠ 0 then "FAIL iterations-ran-after-a-failed-setup"
         else if n "maxflight" > flightBound p.conc then "FAIL more-iterations-in-flight-than-the-concurrency-flag"
@@ -93,7 +97,7 @@ def cliOp (args impl : List String) : Option (String × String) := do
         else if (get "expectfull") = some "1" ∧ n "maxflight" ≠ p.conc then "FAIL concurrency-flag-not-all-workers-used"
         else if (n "err" = 1) ≠ specErr then "FAIL exit-status-differs-from-documented-verdict"
         else if wantErr ≠ specErr then "FAIL model-exit-differs-from-spec"
-        else if (out "banner" = "fail") ≠ specErr then "FAIL banner-differs-from-verdict"
+        else if ¬jsonLog ∧ (out "banner" = "fail") ≠ specErr then "FAIL banner-differs-from-verdict"
         else if (get "combine") = some "1" ∧ ¬setupFailed ∧
             n "later" ≠ (truth.getD 0 0) + (if (get "failkind") = some "errorf" ∨ (get "failkind") = some "timeerr" ∨ (get "failkind") = some "errunhash" ∨ (get "failkind") = some "errnil" then truth.getD 1 0 else 0) then
           "FAIL later-component-of-a-combined-scenario-did-not-run-exactly-when-the-earlier-one-did-not-stop"
